@@ -38,8 +38,9 @@ def run(run):
                 ' registered class, plus the id->class dict the real reactor '
                 'builds; exhaustive. A (version, table) pair is non-trivial if'
                 ' the table is non-empty. Unsupported known versions (%d) are '
-                'only reported.' % (len(supported), len(known) -
-                                    len(supported)))
+                'only reported. All tables are then re-read newest-first, '
+                'shuffled and alternating old/new and must not change.'
+                % (len(supported), len(known) - len(supported)))
     run.assumptions = ['supported versions = minecraft.SUPPORTED_PROTOCOL_'
                        'VERSIONS of the tree under test']
     unsupported_report = []
@@ -121,6 +122,51 @@ def run(run):
                     '(one decoder silently dropped; which one depends on set '
                     'order)', {'pv': pv, 'dropped_or_shadowed': lost})
     run.count('ids_checked', ids_checked)
+
+    # ---- the tables must not depend on the history of earlier calls ----------
+    # (first pass above was chronological; now newest-first, then shuffled, and
+    # each table is compared with what the first pass saw for that version)
+    def table_of(pv, get_packets):
+        ctx = C.ConnectionContext(protocol_version=pv)
+        out = []
+        for k in get_packets(ctx):
+            try:
+                out.append((k.__module__ + '.' + k.__qualname__,
+                            k.get_id(ctx)))
+            except Exception as e:
+                out.append((k.__qualname__, repr(e)))
+        return sorted(out, key=repr)
+    rng = run.rng('orders')
+    passes = {'newest-first': list(reversed(supported)),
+              'shuffled': rng.sample(supported, len(supported)),
+              'alternating': [v for pair in zip(
+                  supported, reversed(supported)) for v in pair]}
+    # compare all call orders with each other: any disagreement means history
+    # dependence
+    seen_tables = {}
+    for label, order in [('oldest-first', supported)] + sorted(passes.items()):
+        for pv in order:
+            for direction, state, get_packets in tables:
+                t = table_of(pv, get_packets)
+                run.count('history_table_reads')
+                key = (pv, direction, state)
+                prev = seen_tables.setdefault(key, (label, t))
+                ids = [i for _n, i in t]
+                dup = sorted({i for i in ids if ids.count(i) > 1},
+                             key=repr)
+                new_collision = dup and not any(
+                    kk.startswith('collision/%s/%s/pv=%d/' % (direction, state,
+                                                              pv))
+                    for kk in run.violations)
+                if prev[1] != t or new_collision:
+                    run.violation(
+                        'table/history-dependent/%s/%s' % (direction, state),
+                        'the packet table of a version depends on which '
+                        'versions were queried before (call order %s vs %s)'
+                        % (prev[0], label),
+                        {'pv': pv, 'before': prev[1][:8], 'now': t[:8],
+                         'colliding_ids': dup})
+                    break
     run.extra['unsupported_versions_reported'] = unsupported_report[:50]
     run.extra['supported_versions'] = len(supported)
     run.sample({'pv': 757, 'cb/play': {
@@ -130,3 +176,4 @@ def run(run):
             key=lambda k: k.__name__)}})
     run.require('ids_checked', 5000)
     run.require('reactor_dicts_inspected', 1000)
+    run.require('history_table_reads', 5000)
